@@ -240,6 +240,16 @@ func c10Run(b *core.B) {
 					}
 				}
 			}
+			// nobody has stored anything under the name: every context of the tree gives the
+			// same answer, whenever it was made (there is no nearest context that has it)
+			for which, c := range all {
+				if strings.HasSuffix(which, "made before") || which == "child made after" {
+					if (c.Value(name) == nil) != (root.Value(name) == nil) {
+						b.Violate("wrong-value|late-helper-known-in-part-of-the-tree", fmt.Sprintf("%s: Value(%q) = %s, its root says %s", which, name, valName(c.Value(name), 0), valName(root.Value(name), 0)))
+						return
+					}
+				}
+			}
 			// a value the user stores under the helper's name on an old root wins in all its
 			// descendants, also in those made after the helper was registered
 			lateChild := root.New().(*plush.Context)
@@ -247,6 +257,14 @@ func c10Run(b *core.B) {
 			for which, c := range map[string]*plush.Context{"child made before": child, "grandchild made before": grand, "child made after the registration": lateChild, "grandchild made after": lateChild.New().(*plush.Context)} {
 				if v := c.Value(name); v != 1 {
 					b.Violate("wrong-value|builtin-name|late-helper-hides-user-value", fmt.Sprintf("root.Set(%q, 1) after the helper was registered: %s sees %v", name, which, valName(v, 0)))
+					return
+				}
+			}
+			// ... a nil included
+			root.Set(name, nil)
+			for which, c := range map[string]*plush.Context{"root": root, "child made before": child, "grandchild made before": grand, "child made after the registration": lateChild} {
+				if v := c.Value(name); v != nil || c.Has(name) {
+					b.Violate("wrong-value|builtin-name|late-helper-hides-user-nil", fmt.Sprintf("root.Set(%q, nil) after the helper was registered: %s sees %v, Has = %v", name, which, valName(v, 0), c.Has(name)))
 					return
 				}
 			}
